@@ -1,5 +1,6 @@
 import NurbsVerif.Model.SurfDersLoops
 import NurbsVerif.Model.Hodograph
+import NurbsVerif.Model.SpanRGrid
 import NurbsVerif.Driver.Basic
 /- handlers for the literal transcriptions of the derivative evaluators (A3.2, A3.6, A3.7, A3.8), the
    hodograph constructors and tangent / normal (C02) -/
@@ -48,6 +49,20 @@ def handleDers : List String → Option String
       let ord ← ord.toNat?
       if !(okKv pu su Uu && okKv pv sv Uv && inDom pu su Uu u && inDom pv sv Uv v && P.length == su * sv) then return "ERR"
       return showPts2 (surfDers1 (rat == "1") pu pv Uu Uv su sv P u v ord)
+  -- the default evaluators as coded on the span(s) the REPAIRED search finds (`curveDersA32R`, `surfaceDersA36R`,
+  -- Model/SpanRGrid.lean): no empty-span guard
+  | ["cders32r", rat, p, us, ps, u, ord] => do
+      let p ← p.toNat?; let U ← parseList us; let P ← parsePts ps; let u ← parseRat u; let ord ← ord.toNat?
+      if !(okKv p P.length U && inDomR p P.length U u) then return "ERR"
+      let CK := curveDersA32R p (fn U) P u ord
+      return showPts (if rat == "1" then ratCurveDers CK else CK)
+  | ["sders36r", rat, pu, pv, uus, uvs, su, sv, ps, u, v, ord] => do
+      let pu ← pu.toNat?; let pv ← pv.toNat?; let Uu ← parseList uus; let Uv ← parseList uvs
+      let su ← su.toNat?; let sv ← sv.toNat?; let P ← parsePts ps; let u ← parseRat u; let v ← parseRat v
+      let ord ← ord.toNat?
+      if !(okKv pu su Uu && okKv pv sv Uv && inDomR pu su Uu u && inDomR pv sv Uv v && P.length == su * sv) then return "ERR"
+      let S := surfaceDersA36R pu pv (fn Uu) (fn Uv) su sv P u v ord
+      return showPts2 (if rat == "1" then ratSurfaceDers S ord else S)
   | ["sders38", pu, pv, uus, uvs, su, sv, ps, u, v, ord] => do
       let pu ← pu.toNat?; let pv ← pv.toNat?; let Uu ← parseList uus; let Uv ← parseList uvs
       let su ← su.toNat?; let sv ← sv.toNat?; let P ← parsePts ps; let u ← parseRat u; let v ← parseRat v
